@@ -287,6 +287,18 @@ class Interp:
                     rz = _Raised(type(v).__name__ if not isinstance(v, Exception) or type(v) is not Exception else str(v))
                     rz.exc = v
                     raise rz
+                if isinstance(s.exc, ast.Call) and not (isinstance(s.exc.func, ast.Name) and s.exc.func.id[:1].isupper()):
+                    # raise <helper call>(…): the helper builds the exception object
+                    try:
+                        v = self.ev(s.exc)
+                    except (AnalysisError, _Raised):
+                        v = None
+                    if isinstance(v, BaseException):
+                        rz = _Raised(f"{type(v).__name__}({', '.join(map(str, v.args))[:60]})")
+                        rz.exc = v
+                        raise rz
+                    if v is not None and type(v).__name__ != "NoneType":
+                        raise _Raised(f"{type(v).__name__}(…)")
                 raise _Raised(unparse(s.exc)[:80] if s.exc else "raise")
             else:
                 raise AnalysisError(f"tabulation: unsupported statement {type(s).__name__} at line {getattr(s, 'lineno', '?')}")
